@@ -74,6 +74,51 @@ fn compare(acc: &mut Acc, iface: &IfaceDesc, variation: &str, sigkey: &str, cano
     };
     acc.res.evaluations += 1;
     acc.res.sample(|| J::obj(vec![("iface", J::s(iface.name)), ("canonical", J::s(esc(canon))), ("variant", J::s(esc(variant))), ("variation", J::s(variation)), ("outcome", J::strs(got.show()))]));
+    // a quarter of the variants also as a byte stream through `process`, with a read boundary
+    // behind every white-space byte (the variation must not matter there either)
+    if &got == reference && variant.len() <= 900 && (fnv(variant) >> 5) % 4 == 0 {
+        let mut chunks: Vec<usize> = Vec::new();
+        let mut last = 0usize;
+        for (i, b) in variant.iter().enumerate() {
+            if *b <= 32 && *b != b'\n' {
+                chunks.push(i + 1 - last);
+                last = i + 1;
+            }
+        }
+        chunks.push(variant.len() - last);
+        par::case_begin(variant, [1, 0, 0, 0]);
+        let n = (iface.ns)().into_iter().max().unwrap_or(1024);
+        if n < variant.len() + 64 {
+            return;
+        }
+        let out = (iface.process)(&crate::drive::ProcSpec { stream: variant, n, chunks: &chunks, pend_seed: 0, fault_at: None });
+        par::case_end();
+        if out.crashed() {
+            acc.res.skipped_crash += 1;
+            return;
+        }
+        acc.res.evaluations += 1;
+        *acc.by_variation.entry(format!("{} (through process, reads ending behind white space)", variation)).or_default() += 1;
+        let gp = streams(&out.log);
+        if &gp != reference {
+            acc.res.add_violation(Violation {
+                sig: format!("variant-differs-through-process/{}", sigkey),
+                summary: format!("\"{}\" and its variant \"{}\" ({}) read through process with a read boundary behind every white-space byte have different outcomes", esc(canon), esc(variant), variation),
+                witness: J::obj(vec![
+                    ("iface", J::s(iface.name)),
+                    ("decls", J::strs(iface.decls.iter().map(|x| x.cmd.to_string()))),
+                    ("canonical", J::s(esc(canon))),
+                    ("variant", J::s(esc(variant))),
+                    ("variant_hex", J::s(hex(variant))),
+                    ("n", n.into()),
+                    ("chunks", J::Arr(chunks.iter().take(64).map(|c| J::Int(*c as i64)).collect())),
+                    ("canonical_outcome", J::strs(reference.show())),
+                    ("variant_outcome", J::strs(gp.show())),
+                ]),
+            });
+        }
+        return;
+    }
     if &got != reference {
         acc.res.add_violation(Violation {
             sig: format!("variant-differs/{}", sigkey),
